@@ -78,6 +78,14 @@ def cases(ctx):
             old = sorted(seq.blackboxes)[0]
             seq.blackboxes["core." + old] = seq.blackboxes.pop(old)
             nx.relabel_nodes(seq.graph, {n: "core." + n for n in list(seq.graph.nodes) if n.startswith(old + ".")}, copy=False)
+        if r.random() < 0.1:
+            # a net that already carries the name an exposed pin would get: must be refused loudly, never merged
+            import networkx as nx
+
+            b0 = sorted(seq.blackboxes)[0]
+            tgt = "%s_q_net" % b0
+            if tgt in seq.graph:
+                nx.relabel_nodes(seq.graph, {tgt: ("%s_q" % b0).replace(".", "_")}, copy=False)
         yield {"op": "strip_blackboxes", "c": proj(seq), "ignore": ign, "src": "STRIP"}
 
 
@@ -176,6 +184,10 @@ def run_case(case, ctx):
                 conns[o] = "fw%d" % k
         order = r.random() < 0.5
         p.add_blackbox(bb, "inst", conns)
+        if r.random() < 0.4:
+            # other instances whose names start with the filled instance's name
+            p.add_blackbox(cg.BlackBox("ff", ["d"], ["q"]), "inst0", {"d": sorted(srcs)[0]})
+            p.add_blackbox(cg.BlackBox("ff", ["d"], ["q"]), "inst_b", {"d": sorted(srcs)[-1]})
         if order:  # some unrelated edit between add_blackbox and fill_blackbox
             p.add("later", "not", fanin=sorted(srcs)[0], output=True)
         pre = proj(p)
@@ -192,6 +204,11 @@ def run_case(case, ctx):
         res = cg.tx.strip_blackboxes(c, ignore_pins=ign)
     except Exception as e:
         exc = type(e).__name__
+    if exc == "ValueError":
+        pins = {n.replace(".", "_") for n in c.nodes() if c.type(n) in ("bb_input", "bb_output")}
+        if pins & set(c.nodes()):
+            ctx.count("strip_blackboxes_name_overlap_rejected_loudly")      # outside the domain: a loud rejection
+            return []
     ilist = [] if ign is None else [ign] if isinstance(ign, str) else list(ign)
     return {"kind": "strip_blackboxes", "c": case["c"], "ignore": ilist, "r": proj(res) if res is not None else {},
             "exc": exc, "nontrivial": True}
